@@ -35,6 +35,12 @@ def pop0 {α} : List α → Except Err (List α)
   | [] => .error .other
   | _ :: xs => .ok xs
 
+/-- `l.pop()`: the last element and the list without it -/
+def popLast {α} : List α → Except Err (α × List α)
+  | [] => .error .other
+  | [x] => .ok (x, [])
+  | x :: y :: r => (popLast (y :: r)).map fun p => (p.1, x :: p.2)
+
 def unwrap {α} : Option α → Except Err α
   | some x => .ok x
   | none => .error .other
